@@ -85,7 +85,7 @@ package main
 //@ ghost var $sought bool
 //@ ghost var $catDone bool
 //@ func runCat
-//@   prop C09
+//@   prop C09 C03
 //@   safety none
 //@   ghost@entry $sought = false
 //@   ghost@entry $catDone = false
@@ -129,6 +129,13 @@ package main
 //@   assume@entry opt.n >= 1
 //@   oncall NewLocalFS: requires $arg1 == opt.LocalFSOptions
 //@   oncall UnTarIndex: requires $arg4 == opt.n
+
+//# every command opens a store with the options the configuration holds for the location exactly as the user
+//# wrote it (the keys of "store-options" are matched against that string; a re-serialised URL escapes characters)
+//@ func storeFromLocation
+//@   prop C20 C16 C03
+//@   safety none
+//@   oncall GetStoreOptionsFor: requires $arg0 == location
 
 // ---------------------------------------------------------------------------- C15
 
